@@ -81,12 +81,16 @@ def flag_args(flags):
 
 def content_key(flags):
     """Flags that determine file *content* and the set of generated files."""
-    return json.dumps({k: flags.get(k) for k in ("omit", "gs", "trim", "maxempty", "nst", "dsdl")}, sort_keys=True)
+    return json.dumps({k: flags.get(k) for k in ("omit", "gs", "trim", "maxempty", "nst", "dsdl", "pprun")}, sort_keys=True)
 
 
 def nnvg_cmd(sb, lang, flags, out):
     root = os.path.join(sb, flags.get("dsdl", "dsdl"), "cov")
     a = [common.PY, "-m", "nunavut", "-l", lang, "--experimental-languages", "--allow-unregulated-fixed-port-id", "-O", out, root] + flag_args(flags)
+    if flags.get("pprun"):
+        # a program run on every generated file ("before the file is set to read-only"): it replaces the file by a new one of the same
+        # content, as formatters that write a temporary file and rename it do
+        a += ["--pp-run-program", os.path.join(sb, "rewrite.sh")]
     if flags.get("mode") is not None:
         a += ["--file-mode", oct(flags["mode"])]
     if flags.get("no_overwrite"):
@@ -122,6 +126,15 @@ def run_history(args):
                 with open(p, "wb") as fh:
                     fh.write(data)
                 os.chmod(p, m)
+    elif prepop == "nsfiles":
+        first = refs[content_key(steps[0])]["files"] or {}
+        for rel in sorted(first):
+            if os.path.basename(rel) in ("__init__.py", "index.html"):
+                p = os.path.join(out, rel)
+                os.makedirs(os.path.dirname(p), exist_ok=True)
+                with open(p, "w") as f:
+                    f.write("# written by hand, not generated\n")
+                os.chmod(p, 0o644)
     elif prepop:
         first = refs[content_key(steps[0])]["files"] or {}
         rr = random.Random("prepop/%s" % hid)
@@ -208,12 +221,19 @@ def check_history(ctx, log):
         ctx.distinct((hid, i))
 
 
+READABLE_MODES = [m for m in MODES if m & 0o400]
+
+
 def make_history(R):
     n = R.randint(2, 6)
     steps = []
+    # histories that run a program on every generated file keep to modes the owner can read: the program is handed the file as the
+    # earlier run left it (made writable, not readable), and a formatter that cannot read its input fails for reasons of its own
+    with_program = R.random() < 0.25
     for i in range(n):
-        f = dict(mode=R.choice([None] + MODES), no_overwrite=R.random() < 0.25, omit=R.random() < 0.3, gs=R.choice([None, None, "always", "never", "as-needed"]),
-                 trim=R.random() < 0.2, maxempty=R.choice([None, None, 0, 2]), nst=R.random() < 0.15, dsdl=R.choice(["dsdl", "dsdl", "dsdl_small"]))
+        f = dict(mode=R.choice([None] + (READABLE_MODES if with_program else MODES)), no_overwrite=R.random() < 0.25, omit=R.random() < 0.3, gs=R.choice([None, None, "always", "never", "as-needed"]),
+                 trim=R.random() < 0.2, maxempty=R.choice([None, None, 0, 2]), nst=R.random() < 0.15, dsdl=R.choice(["dsdl", "dsdl", "dsdl_small"]),
+                 pprun=with_program and R.random() < 0.7)
         steps.append(f)
     return steps
 
@@ -232,6 +252,9 @@ def run(ctx):
         os.unlink(os.path.join(sb, "dsdl_small", "cov", n))
     with open(os.path.join(sb, "dsdl_small", "cov", "Prims.1.0.dsdl"), "w") as f:
         f.write("uint8 u8\n@sealed\n")
+    with open(os.path.join(sb, "rewrite.sh"), "w") as f:
+        f.write('#!/bin/sh\ncat "$1" > "$1.rewritten" && mv -f "$1.rewritten" "$1"\n')
+    os.chmod(os.path.join(sb, "rewrite.sh"), 0o755)
     nh = ctx.pick(36, 300)
     jobs = []
     for h in range(nh):
@@ -245,10 +268,16 @@ def run(ctx):
         [dict(mode=0), dict(), dict(mode=0), dict(mode=0o644), dict(mode=0)],
         [dict(), dict(mode=0o200), dict(mode=0), dict(no_overwrite=True, mode=0)],
         [dict(no_overwrite=True), dict(no_overwrite=True, mode=0o600), dict(mode=0o600, no_overwrite=True, dsdl="dsdl_small")],
+        [dict(pprun=True), dict(pprun=True, mode=0o400), dict(pprun=True, mode=0o644), dict(pprun=True)],
+        [dict(pprun=True, mode=0o600), dict(mode=0o444, pprun=True, no_overwrite=True), dict(pprun=True, mode=0)],
     ]
     for i, steps in enumerate(fixed):
         for lang in ("c", "py"):
-            jobs.append((sb, lang, nh + len(fixed) * ["c", "py"].index(lang) + i, [dict(dict(mode=None, no_overwrite=False, omit=False, gs=None, trim=False, maxempty=None, nst=False, dsdl="dsdl"), **s) for s in steps], i % 2 == 1))
+            jobs.append((sb, lang, nh + len(fixed) * ["c", "py"].index(lang) + i, [dict(dict(mode=None, no_overwrite=False, omit=False, gs=None, trim=False, maxempty=None, nst=False, dsdl="dsdl", pprun=False), **s) for s in steps], i % 2 == 1))
+    # the directory holds nothing but (foreign) namespace files where the run wants to put its own: --no-overwrite must refuse and keep them
+    base_step = dict(mode=None, no_overwrite=False, omit=False, gs=None, trim=False, maxempty=None, nst=False, dsdl="dsdl", pprun=False)
+    for k, lang in enumerate(("py", "py", "html")):
+        jobs.append((sb, lang, nh + 1000 + k, [dict(base_step, no_overwrite=True, nst=(lang == "html"), mode=[None, 0o640, None][k]), dict(base_step, nst=(lang == "html"))], "nsfiles"))
     import concurrent.futures
     with concurrent.futures.ThreadPoolExecutor(12) as ex:
         logs = list(ex.map(run_history, jobs))
